@@ -5,20 +5,22 @@
 # difference is the path of the `whirlpool` / SDK dependencies. Registered checks never use this.
 set -u
 P="$(readlink -f "$1")"; shift
-WT=/tmp/mx/repo; VC=/tmp/mx/verif
-mkdir -p /tmp/mx
-exec 9>/tmp/mx/lock; flock 9
+MX=${MX:-/tmp/mx}
+WT=$MX/repo; VC=$MX/verif
+mkdir -p $MX
+exec 9>$MX/lock; flock 9
 if [ ! -d $WT ]; then git -C /repo worktree add --detach $WT HEAD -q || exit 9; fi
 git -C $WT checkout -q --detach "$(git -C /repo rev-parse HEAD)" && git -C $WT checkout -q -- . && git -C $WT clean -fdq
 git -C $WT apply "$P" || { echo "patch does not apply"; exit 9; }
-mkdir -p $VC /tmp/mx/target-engine /tmp/mx/target-sdk
+mkdir -p $VC $MX/target-engine $MX/target-sdk
 rsync -a --delete --exclude 'target' --exclude 'target-*' --exclude logs --exclude evidence --exclude replays --exclude .git /verif/ $VC/
 sed -i "s|/repo/|$WT/|g" $VC/engine/vcheck/Cargo.toml $VC/engine-sdk/sdkcheck/Cargo.toml
 sed -i "s|\"/repo/programs/whirlpool/src/lib.rs\"|\"$WT/programs/whirlpool/src/lib.rs\"|" $VC/engine/vcheck/src/catalog.rs $VC/engine/vcheck/src/ix/build.rs
-ln -sfn /tmp/mx/target-engine $VC/engine/target; ln -sfn /tmp/mx/target-sdk $VC/engine-sdk/target
+ln -sfn $MX/target-engine $VC/engine/target; ln -sfn $MX/target-sdk $VC/engine-sdk/target
 cd $VC
 for id in "$@"; do
   out=$(VERIF_NO_LANES=${VERIF_NO_LANES:-1} ./check "$id" ${TIER:-quick} 2>&1); rc=$?
+  [ -n "${MATRIX_OUT:-}" ] && echo "$id $rc $(echo "$out" | grep -m1 "signature:" | sed 's/^ *signature: //')" >> "$MATRIX_OUT"
   echo "== $id rc=$rc: $(echo "$out" | grep -E "VIOLATION|INCONCLUSIVE|KNOWN|held|violated" | head -3 | tr '\n' '|')"
   echo "$out" | grep -E "signature:|detail:" | head -4 | cut -c1-400
 done
